@@ -12,7 +12,7 @@ EXPL = ('Decides: (1) the rating guards of GEXTest.run evaluated by the ordering
         '2048-bit warning is placed in row 2 exactly once, from 3072 no size note; the branches are exclusive; (2) "no size rather than a wrong one": kex.set_dh_modulus_size has one call site, dominated by smallest_modulus > 0; in _send_init the returned '
         'size starts at a non-positive sentinel and its only other definition reads the key-exchange object after send_init_gex and recv_reply succeeded inside the same try; the handler and the reconnect-failure branch leave the sentinel and finally closes; '
         'send_init_gex raises for any other message type and sets the modulus only from the parsed group; (3) the probe sizes are the documented literal sequences with the early exit, the second pass is made iff the first result is 2048 on an OpenSSH banner and the '
-        'explanatory note is added iff it changed the result; (4) the OpenSSH-2048 note and suppression fire exactly under the documented conjunction. Not decided: that the value left by the loop is the smallest modulus for every server policy, and the bit length arithmetic.')
+        'explanatory note is added iff it changed the result; (4) the OpenSSH-2048 note and suppression fire exactly under the documented conjunction. (5) GEXTest.run is abstractly interpreted against every monotone server moduli policy over subsets of {512..8192} (all 512 subsets) in the strict and OpenSSH-fallback styles x banner x algorithm with _send_init summarised by the policy: the recorded size equals the smallest modulus handed out over the fixed probe sequence (follow-up answer for OpenSSH at 2048) and the table row is rated by the thresholds. Not decided: the bit length arithmetic and servers outside these policy families.')
 
 
 def run(repo, rep, tier):
@@ -21,8 +21,103 @@ def run(repo, rep, tier):
     si = repo.func('gextest', 'GEXTest._send_init')
     rep.saw(gr), rep.saw(si)
 
+    # ---- rule 5: the measuring procedure against server moduli policies (abstract interpretation) --------------------------------------
+    # GEXTest.run is interpreted (sa/listinterp.py) with _send_init summarised as "the size the policy hands out for (min, pref, max), -1 when it
+    # refuses" -- what rule `measured` establishes for _send_init -- for every monotone moduli policy over subsets of the documented sizes, in the
+    # strict and the OpenSSH-fallback selection styles, OpenSSH and non-OpenSSH banners, both group-exchange algorithms.  The recorded size must be the
+    # smallest modulus the policy hands out over the fixed probe sequence (OpenSSH ending at 2048: the answer to the 2048-4096 follow-up), the notes in
+    # the algorithm's table row must follow the thresholds, and a policy that never answers records nothing.
+    import copy as _copy
+    from sa.listinterp import Interp
+    from sa.abseval import Opaque
+    SIZES = [512, 768, 1024, 1536, 2048, 3072, 4096, 6144, 8192]
+    FIXED = [(512, 1024, 1536)] + [(b, b, b) for b in (512, 768, 1024, 1536, 2048, 3072, 4096)]
+
+    def pick(moduli, lo, pref, hi):
+        c = sorted(m for m in moduli if lo <= m <= hi)
+        if not c:
+            return None
+        for m in c:
+            if m >= pref:
+                return m
+        return c[-1]
+
+    def strict(moduli):
+        return lambda lo, pref, hi: pick(moduli, lo, pref, hi)
+
+    def fallback(moduli):
+        def f(lo, pref, hi):
+            m = pick(moduli, lo, pref, hi)
+            if m is not None:
+                return m
+            return 2048 if hi < 3072 else (4096 if hi < 6144 else 8192)
+        return f
+    db2 = ConstEnv(repo).lookup('ssh2_kexdb', 'SSH2_KexDB.MASTER_DB')
+    subsets = [c for r in range(0, 10) for c in itertools.combinations(SIZES, r)]
+    nmodels = 0
+    bad = []
+    for moduli in subsets:
+        for style_name, style in (('strict', strict), ('openssh-fallback', fallback)):
+            policy = style(moduli)
+            answers = [policy(*p) for p in FIXED]
+            pos = [a for a in answers if a is not None]
+            for banner_sw in ('OpenSSH_9.6', 'dropbear_2022.83'):
+                want = min(pos) if pos else None
+                want_note = False
+                if want == 2048 and banner_sw.startswith('OpenSSH'):
+                    second = policy(2048, 3072, 4096)
+                    want_note = second is not None and second != 2048
+                    want = second
+                for gex_alg in ('diffie-hellman-group-exchange-sha1', 'diffie-hellman-group-exchange-sha256'):
+                    nmodels += 1
+                    row = _copy.deepcopy(db2['kex'][gex_alg])
+                    table = {'kex': {gex_alg: row}}
+
+                    def hook(call, env, interp, policy=policy):
+                        nm = call_name(call) or ''
+                        if nm.endswith('_send_init'):
+                            a = [interp.value(x, env) for x in call.args[5:8]]
+                            r = policy(*a)
+                            return (True, (r if r is not None else -1, False))
+                        return None
+                    env = {'kex.kex_algorithms': [gex_alg], 'GEX_ALGS.items()': [(gex_alg, Opaque())], 'SSH2_KexDB.get_db()': table, 'banner': Opaque(), 'banner.software': banner_sw,
+                           'banner is not None': True, 'banner.software is not None': True, 's.is_connected()': False}
+                    it = Interp(call_hook=hook, effect_names=('set_dh_modulus_size',))
+                    try:
+                        finals = it.run(gr.body, env)
+                    except Unknown as ex:
+                        raise AnalysisError('GEXTest.run cannot be interpreted against a moduli policy: %s' % ex)
+                    if len(finals) != 1 or finals[0].get('<forks>'):
+                        raise AnalysisError('GEXTest.run: outcome depends on a condition the analysis does not model: %s' % [f.get('<forks>') for f in finals][:2])
+                    fe = finals[0]
+                    rep.evals()
+                    rec = [a for nm, a, k in fe['<effects>']]
+                    got = rec[-1][1] if rec else None
+                    desc = '%s policy with moduli %s, %s banner, %s' % (style_name, list(moduli), banner_sw.split('_')[0], gex_alg.rsplit('-', 1)[1])
+                    if want is None or (want is not None and want <= 0):
+                        if rec:
+                            bad.append((desc, 'records %s bits although the server never hands out a modulus' % got))
+                        continue
+                    if len(rec) != 1 or rec[0][0] != gex_alg or got != want:
+                        bad.append((desc, 'reports %s bits, the smallest modulus handed out over the probe sequence is %s (answers %s)' % (got, want, answers)))
+                        continue
+                    fails = [t for t in (row[1] if len(row) > 1 else []) if 'modulus' in str(t)]
+                    warns = [t for t in (row[2] if len(row) > 2 else []) if 'modulus' in str(t)]
+                    infos = [t for t in (row[3] if len(row) > 3 else []) if 'fallback' in str(t)]
+                    if want < 2048 and not (len(fails) == 1 and str(want) in fails[0] and not warns):
+                        bad.append((desc, '%d-bit modulus is not rated a failure naming the size (row %s)' % (want, row[1:])))
+                    elif 2048 <= want < 3072 and not (len(warns) == 1 and not fails):
+                        bad.append((desc, '%d-bit modulus is not rated a single warning (row %s)' % (want, row[1:])))
+                    elif want >= 3072 and (fails or warns):
+                        bad.append((desc, '%d-bit modulus carries a size note (row %s)' % (want, row[1:])))
+                    if bool(infos) != want_note:
+                        bad.append((desc, 'fallback note %s although the follow-up probe %s the result' % ('present' if infos else 'absent', 'changed' if want_note else 'did not change')))
+    rep.floor('policies', 'server moduli policies interpreted', nmodels, 4096)
+    rep.check('policies', 'the recorded modulus is the smallest the server hands out, rated by the thresholds, for %d policy x banner x algorithm models' % nmodels, not bad, gr,
+              'group-exchange measurement wrong for a %s: %s [%d models deviate]' % ((bad[0][0], bad[0][1], len(bad)) if bad else ('', '', 0)), stmt='moduli policy models', sample={'rule': 'policies', 'models': nmodels})
+
     # ---- rule 1: threshold partition ------------------------------------------------------------------------------------
-    outer = [n for n in walk_no_nested(gr) if isinstance(n, ast.If) and unparse(n.test) == 'smallest_modulus > 0']
+    outer = [n for n in walk_no_nested(gr) if isinstance(n, ast.If) and unparse(n.test) == 'smallest_modulus > 0' and any(isinstance(x, ast.Call) and isinstance(x.func, ast.Attribute) and x.func.attr == 'set_dh_modulus_size' for x in ast.walk(n))]
     if len(outer) != 1:
         raise AnalysisError('`if smallest_modulus > 0` block not found in GEXTest.run')
     ob = outer[0]
@@ -117,33 +212,14 @@ def run(repo, rep, tier):
     rep.check('measured', 'set_params stores p', 'self.__p = p' in unparse(spf), spf, 'set_params changed')
 
     # ---- rule 3: probe sequence ------------------------------------------------------------------------------------------------
+    # (the probe sizes, their order, the early exit, the OpenSSH follow-up and the fallback note are decided semantically by rule 5 below -- the
+    #  earlier text rules on the literal list and the spelling of the early-exit test were removed: they alarmed on equivalent respellings)
     calls = sorted([n for n in walk_no_nested(gr) if isinstance(n, ast.Call) and call_name(n) == 'GEXTest._send_init'], key=lambda n: n.lineno)
-    seqs = [[unparse(a) for a in c.args[5:8]] for c in calls]
-    rep.check('probes', 'probe calls: (512,1024,1536), (bits,bits,bits), (2048,3072,4096)', seqs == [['512', '1024', '1536'], ['bits', 'bits', 'bits'], ['2048', '3072', '4096']], gr, 'probe arguments: %s' % seqs, sample={'rule': 'probes', 'sequence': seqs})
+    rep.floor('probes', 'probe call sites in GEXTest.run', len(calls), 2)
     for c in calls:
         rep.check('probes', 'probe uses the audit socket, the probed algorithm and its key-exchange object', [unparse(a) for a in c.args[:5]] == ['out', 's', 'kex_group', 'kex', 'gex_alg'], c, 'probe call arguments changed')
-    lp = [n for n in walk_no_nested(gr) if isinstance(n, ast.For) and unparse(n.target) == 'bits']
-    ok = len(lp) == 1 and unparse(lp[0].iter) == '[512, 768, 1024, 1536, 2048, 3072, 4096]'
-    rep.check('probes', 'single-size probes use the ascending literal list 512..4096', ok, lp[0] if lp else gr, 'size list: %s' % (unparse(lp[0].iter) if lp else '?'))
-    if lp:
-        vals = [e.value for e in lp[0].iter.elts] if isinstance(lp[0].iter, ast.List) else []
-        rep.check('probes', 'the list is strictly ascending', vals == sorted(vals) and len(set(vals)) == len(vals), lp[0], 'probe list not ascending')
-        first = lp[0].body[0]
-        ok = isinstance(first, ast.If) and unparse(first.test) == 'bits >= smallest_modulus > 0' and isinstance(first.body[-1], ast.Break)
-        rep.check('probes', 'early exit: stop once a modulus was found and the next size is not smaller', ok, first, 'early-exit test changed: %s' % stmt_text(first))
     kg = [n for n in walk_no_nested(gr) if isinstance(n, ast.Assign) and unparse(n.targets[0]) == 'kex_group']
     rep.check('probes', 'a fresh key-exchange object per algorithm', len(kg) == 1 and unparse(kg[0].value) == 'kex_group_class(out)', kg[0] if kg else gr, 'kex_group construction changed')
-    second = calls[2] if len(calls) == 3 else None
-    if second is not None:
-        pcs = [(unparse(t), p) for t, p, k in path_condition(second) if k == 'if']
-        want = "smallest_modulus == 2048 and banner is not None and (banner.software is not None) and (banner.software.find('OpenSSH') != -1)"
-        rep.check('probes', 'second pass iff the first result is 2048 and the banner software contains OpenSSH', (want, True) in pcs, second, 'second pass guard: %s' % pcs)
-    upd = [n for n in walk_no_nested(gr) if isinstance(n, ast.Assign) and unparse(n.targets[0]) == 'openssh_test_updated']
-    vals = sorted(unparse(n.value) for n in upd)
-    rep.check('probes', 'the explanatory note flag: second pass measured something other than 2048', vals == ['False', 'bool(smallest_modulus > 0 and smallest_modulus != 2048)'], upd[0] if upd else gr, 'openssh_test_updated definitions: %s' % vals)
-    note = [n for n in ob.body if isinstance(n, ast.If) and unparse(n.test) == 'openssh_test_updated']
-    ok = len(note) == 1 and any('lst[3].append(text)' in unparse(s) for s in ast.walk(note[0]) if isinstance(s, ast.Expr)) and any(isinstance(s, ast.While) and unparse(s.test) == 'len(lst) < 4' for s in note[0].body)
-    rep.check('probes', 'the fallback note is an info note (row 3) added iff the second pass changed the result', ok, note[0] if note else ob, 'fallback note placement changed')
 
     # ---- rule 4: OpenSSH 2048 note and suppression -----------------------------------------------------------------------------
     ppf = repo.func('ssh_audit', 'post_process_findings')
